@@ -25,16 +25,14 @@ Definition lost_wakeup (c : ecase) : bool :=
                                 | None => false end
                     | None => false end) (i_blocked c).
 
-(* domain of the known finding: some count_down with n <> 1 *)
-Definition known_domain (c : ecase) : bool :=
-  existsb (existsb (fun o => match o with OCountDown n => negb (n =? 1) | _ => false end)) (e_progs c).
+(* (the former known-finding domain "some count_down with n <> 1" is gone: the defect was repaired in /repo) *)
 
 Definition agrees (c : ecase) : bool :=
   let '(s, tr, st) := run_event (e_fuel c) (e_w0 c) (e_tmo c) (e_progs c) (e_sched c) in
   list_eqb zpair_eqb tr (i_trace c) && (status_code st =? i_status c) && (word s =? i_word c) &&
   list_eqb (list_eqb zpair_eqb) (map (fun th => rev (res th)) (threads s)) (i_results c).
 
-(* 0 agree & property holds; 1 differ, property holds; 2 property fails; 4 property fails inside the known domain *)
+(* 0 agree & property holds; 1 differ, property holds; 2 property fails *)
 Definition judge_event (c : ecase) : Z :=
-  if lost_wakeup c then (if known_domain c then 4 else 2)
+  if lost_wakeup c then 2
   else if agrees c then 0 else 1.
